@@ -79,7 +79,7 @@ class DtdMapper:
         attr_type = cls.build_attribute_type(target, attribute)
         attr = Attr(
             name=attribute.name,
-            namespace=target.ns_map.get(attribute.prefix),
+            namespace=target.ns_map.get(attribute.prefix) if attribute.prefix else None,
             tag=Tag.ATTRIBUTE,
             types=[attr_type],
         )
